@@ -277,7 +277,10 @@ class GridSearcher(StochasticSearcher):
                 hp_values.append(values)
             elif isinstance(hp_range, FiniteRange):
                 hp_keys.append(hp)
-                hp_values.append(hp_range.values)
+                # With ``cast_int=True``, different grid points of a finite
+                # range can be rounded to the same value
+                values = list(OrderedDict.fromkeys(hp_range.values))
+                hp_values.append(values)
             elif not isinstance(hp_range, Domain):
                 hp_keys.append(hp)
                 hp_values.append([hp_range])
